@@ -15,7 +15,8 @@ from ..common import mellon, exc_class
 
 RULE = ("cases = option configurations (estimator, n cells, n_landmarks, explicit landmark rows, rank, gp_type spelling, "
         "predictor_with_uncertainty, optimizer, sigma form); function level: exhaustive boundary grids (n in "
-        "{1,2,6,12,4999,5000,5001}, n_landmarks in {-1,0,1,2,n-1,n,n+1,4999,5000,5001}, 17 ranks incl. NaN/None/negative, "
+        "{1,2,6,12,4999,5000,5001}, n_landmarks in {-1,0,1,2,n-1,n,n+1,4999,5000,5001}, 17 ranks incl. NaN/None/negative "
+        "and the integer ranks again as NumPy / JAX integer scalars (np.int64/int32/uint8, 0-d np/jnp integer arrays), "
         "6 types, 40+ spellings); estimator level: the property's grid n in {6,12} x 8 n_landmarks x 4 landmark sets x 11 "
         "ranks x 9 spellings on DensityEstimator (quick: boundary rows + seeded slice; thorough: all 6336 cells), the "
         "other three estimators and the uncertainty x optimizer x sigma axes seeded. distinct = distinct configuration; "
@@ -67,11 +68,28 @@ def reason_of(msg):
 
 # ------------------------------------------------------------------ encoding for the driver
 
+# rank spec: None | ["I", k] Python int | ["NI", k, form] NumPy / JAX integer scalar | ["F", q] float | ["NAN"]
+NPINT_FORMS = ["int64", "int32", "uint8", "np0d", "jnp0d", "jnp0d32"]
+SIG_NPINT = "C15:numpy-integer-rank"
+
+
+def np_form(i, k):
+    """A form from the rotation that can hold k (uint8 only for 0 <= k < 256)."""
+    f = NPINT_FORMS[i % len(NPINT_FORMS)]
+    return f if (f != "uint8" or 0 <= k < 256) else "int64"
+
+
+def rank_is_int(r):
+    return r is not None and r[0] in ("I", "NI")
+
+
 def rank_tok(r):
     if r is None:
         return "N"
     if r[0] == "I":
         return f"I {int(r[1])}"
+    if r[0] == "NI":
+        return f"NI {int(r[1])}"
     if r[0] == "NAN":
         return "NAN"
     fr = Fraction(float(r[1]))
@@ -83,6 +101,16 @@ def rank_py(r):
         return None
     if r[0] == "I":
         return int(r[1])
+    if r[0] == "NI":
+        k, form = int(r[1]), r[2]
+        if form in ("int64", "int32", "uint8"):
+            return np.dtype(form).type(k)
+        if form == "np0d":
+            return np.asarray(k, dtype=np.int64)
+        import jax.numpy as jnp
+        a = jnp.asarray(np.asarray(k, dtype=np.int64 if form == "jnp0d" else np.int32))
+        assert a.ndim == 0 and a.dtype.kind == "i"
+        return a
     if r[0] == "NAN":
         return float("nan")
     return float(r[1])
@@ -135,7 +163,7 @@ def rank_reduces(rank, bound):
     """Documented: a fractional rank 0 < q < 1 or an integer 0 < r < bound asks for Nystroem rank reduction."""
     if rank is None:
         return False
-    if rank[0] == "I":
+    if rank_is_int(rank):           # a NumPy / JAX integer scalar is an integer rank like the Python int
         return 0 < int(rank[1]) < bound
     q = float(rank[1])
     return 0 < q < 1
@@ -143,7 +171,7 @@ def rank_reduces(rank, bound):
 
 def rank_negative(rank):
     """Outside every documented range (`0 < rank`); the code treats it as a Nystroem request."""
-    return rank is not None and rank[0] in ("I", "F") and float(rank[1]) < 0
+    return rank is not None and rank[0] in ("I", "NI", "F") and float(rank[1]) < 0
 
 
 # ------------------------------------------------------------------ function level
@@ -246,7 +274,8 @@ def case_fn(ctx, res, p):
                 want = ("full_nystroem" if red else "full") if full else ("sparse_nystroem" if red else "sparse_cholesky")
             if got != want:
                 res.oracle_fail("compute_gp_type differs from the documented rule", p,
-                                detail={"got": got, "documented": want}, signature="C15:gp_type-rule")
+                                detail={"got": got, "documented": want},
+                                signature=SIG_NPINT if (r is not None and r[0] == "NI") else "C15:gp_type-rule")
         if drv is not None:
             mo = ask(ctx, f"cgt {nl} {rank_tok(r)} {n}")
             mg = mo.split()[1] if mo.startswith("ok") else mo.split(":")[0]
@@ -274,12 +303,14 @@ def case_fn(ctx, res, p):
                 ok = False
             else:
                 if gp == "fixed":
-                    red = not ((r[0] == "I" and int(r[1]) == 0) or (r[0] == "F" and (float(r[1]) >= 1 or float(r[1]) == 0)))
+                    red = not ((rank_is_int(r) and int(r[1]) == 0) or (r[0] == "F" and (float(r[1]) >= 1 or float(r[1]) == 0)))
                 else:
                     red = rank_reduces(r, n if gp in FULLFAM else nl)
                 ok = red == (gp in NYS)
             if ok != (impl[0] == "ok"):
                 sig = "C15:negative-rank-accepted" if rank_negative(r) and impl[0] == "ok" else "C15:validate-rule"
+                if r is not None and r[0] == "NI" and not rank_negative(r):
+                    sig = SIG_NPINT
                 res.oracle_fail("validate_params accepts/refuses against the documented consistency rules", p,
                                 detail={"impl": impl[0], "documented_ok": ok}, signature=sig)
         if drv is not None:
@@ -460,7 +491,7 @@ def case_est(ctx, res, p):
         if est != "function":
             r_eff = rank if rank is not None else ["F", 0.99 if gp_req in NYS else 1.0]
             if gp == "fixed":
-                red = not ((r_eff[0] == "I" and int(r_eff[1]) == 0) or
+                red = not ((rank_is_int(r_eff) and int(r_eff[1]) == 0) or
                            (r_eff[0] == "F" and (float(r_eff[1]) >= 1 or float(r_eff[1]) == 0)))
             else:
                 red = rank_reduces(r_eff, n if gp in FULLFAM else nl_eff)
@@ -471,6 +502,8 @@ def case_est(ctx, res, p):
                 bad.append("Nystroem type does not match the rank request")
         if bad:
             sig = "C15:function-no-validation" if est == "function" else "C15:accepted-contradiction"
+            if est != "function" and rank is not None and rank[0] == "NI" and bad == ["Nystroem type does not match the rank request"]:
+                sig = SIG_NPINT
             res.oracle_fail("accepted configuration contradicts the documented rules: " + "; ".join(bad), p,
                             detail={"gp": gp, "n_landmarks_eff": nl_eff, "n": n}, signature=sig)
         # ---------------- oracle 3: promised shape of L
@@ -484,11 +517,11 @@ def case_est(ctx, res, p):
                     okshape &= lmr == (n if nl_eff >= n else nl_eff)
             elif gp == "full_nystroem":
                 okshape &= Lshape[1] <= n
-                if rank is not None and rank[0] == "I" and int(rank[1]) > 0:
+                if rank_is_int(rank) and int(rank[1]) > 0:
                     okshape &= Lshape[1] == int(rank[1])
             elif gp == "sparse_nystroem":
                 okshape &= lmr is not None and Lshape[1] <= lmr
-                if rank is not None and rank[0] == "I" and int(rank[1]) > 0:
+                if rank_is_int(rank) and int(rank[1]) > 0:
                     okshape &= Lshape[1] == int(rank[1])
             if not okshape:
                 res.oracle_fail("latent factor does not have the promised shape", p,
@@ -516,6 +549,16 @@ def case_est(ctx, res, p):
                                 detail={"family": fam, "expected": want, "landmark_rows": lmr}, signature=sig)
             if gp in NYS:
                 res.oracle_fail("function estimator resolved to a Nystroem type", p, signature="C15:function-nystroem")
+    # ---------------- oracle 5: a NumPy / JAX integer rank is the Python int of the same value
+    if est != "function" and rank is not None and rank[0] == "NI":
+        res.count("est:numpy_integer_rank:" + rank[2])
+        ref = run_estimator({**p, "rank": ["I", int(rank[1])]})
+        same = (out[0] == ref[0]) and (out[1:4] == ref[1:4] if out[0] == "ok" else reason_of(out[1]) == reason_of(ref[1]))
+        if not same:
+            show = lambda o: list(o[:4]) if o[0] == "ok" else [o[0], o[1][:100]]
+            res.oracle_fail(f"rank={rank[2]}({int(rank[1])}) does not resolve like rank={int(rank[1])} "
+                            "(gp_type / shape of L / predictor family / refusal)", p,
+                            detail={"numpy_integer": show(out), "python_int": show(ref)}, signature=SIG_NPINT)
     # ---------------- correspondence with the Lean model
     if ctx["driver"] is not None:
         kept = out[2][1] if out[0] == "ok" and out[2] is not None else 1
@@ -608,6 +651,9 @@ def function_level(ctx, res, rng, quick):
         for nl in sorted({-1, 0, 1, 2, n - 1, n, n + 1, 4999, 5000, 5001}):
             ranks = [None, ["NAN"], ["F", -0.5], ["F", 0.0], ["F", 0.5], ["F", 0.99], ["F", 1.0], ["F", 2.0]] + \
                     [["I", r] for r in sorted({-1, 0, 1, 2, nl - 1, nl, nl + 1, n - 1, n, n + 1})]
+            # the same integers as NumPy / JAX integer scalars (form rotates over the cell index)
+            ranks += [["NI", r, np_form(i + n + nl, r)]
+                      for i, r in enumerate(sorted({-1, 0, 1, 2, nl - 1, nl, nl + 1, n - 1, n, n + 1}))]
             for r in ranks:
                 run_case(ctx, res, {"op": "fn", "fn": "compute_gp_type", "nl": nl, "rank": r, "n": n})
     vp_ns = [6, 5000] if quick else [2, 6, 12, 4999, 5000, 5001]
@@ -616,6 +662,8 @@ def function_level(ctx, res, rng, quick):
             for gp in NAMES:
                 ranks = [None, ["NAN"], ["F", -0.5], ["F", 0.0], ["F", 0.5], ["F", 1.0], ["F", 2.0]] + \
                         [["I", r] for r in sorted({-1, 0, 1, nl - 1, nl, n - 1, n, n + 1})]
+                ranks += [["NI", r, np_form(i + nl, r)]
+                          for i, r in enumerate(sorted({-1, 0, 1, nl - 1, nl, n - 1, n, n + 1}))]
                 for r in ranks:
                     for lm in [None, nl, nl + 1]:
                         if lm is not None and lm < 0:
@@ -670,7 +718,15 @@ def run(ctx, res):
            est_cell("density", 12, None, 12, None, None),
            est_cell("time", 6, None, 8, ["F", 0.5], None),
            # 'fixed' without explicit landmarks on the time-sensitive estimator (fixed defect 02e559e)
-           est_cell("time", 12, None, None, None, ["S", "fixed"])]
+           est_cell("time", 12, None, None, None, ["S", "fixed"]),
+           # integer rank given as a NumPy / JAX integer scalar (fixed defect 4604925: it became the float k.0 = 'full')
+           est_cell("density", 12, None, None, ["NI", 3, "int64"], None),
+           est_cell("density", 12, 5, None, ["NI", 2, "int32"], None),
+           est_cell("density", 12, None, None, ["NI", 3, "jnp0d"], ["S", "full_nystroem"]),
+           est_cell("time", 6, None, None, ["NI", 2, "np0d"], None),
+           est_cell("dim", 12, 4, None, ["NI", 2, "uint8"], None),
+           est_cell("density", 12, None, None, ["NI", 12, "jnp0d32"], None),
+           est_cell("density", 12, None, None, ["NI", 3, "int64"], ["S", "full"])]
     for p in wit:
         run_case(ctx, res, p)
     # ---- the property's grid on DensityEstimator
@@ -694,6 +750,9 @@ def run(ctx, res):
             for nl in (2, n - 1):
                 for r in (["I", 1], ["I", 2], ["F", 0.5], ["F", 0.99]):
                     rows.append(est_cell("density", n, nl, None, r, None))
+            for j, r in enumerate(grid_ranks(n)):
+                if r is not None and r[0] == "I":
+                    rows.append(est_cell("density", n, None, None, ["NI", r[1], np_form(j + n, r[1])], None))
         order = rng.permutation(len(cells))
         todo = [rows[i] for i in rng.permutation(len(rows))] + [cells[i] for i in order]
         res.exhaustive = False
@@ -727,6 +786,8 @@ def run(ctx, res):
             p = est_cell(est, n, nl, lm, None, gp, unc=bool(rng.random() < 0.5), sigma=sg)
         else:
             r = grid_ranks(n)[rng.integers(11)]
+            if r is not None and r[0] == "I" and rng.random() < 0.2:
+                r = ["NI", r[1], np_form(int(rng.integers(len(NPINT_FORMS))), r[1])]
             if rng.random() < 0.08:
                 r = [["I", -1], ["I", -n], ["F", -0.5], ["F", 0.0], ["NAN"], ["F", 0.999]][rng.integers(6)]
             unc = bool(rng.random() < 0.5) if est == "density" else bool(rng.random() < 0.25)
@@ -744,13 +805,15 @@ CLAIM = {
             "documented type rules (full family iff no or >= n landmarks, sparse family iff 1 < n_landmarks < n, Nystroem "
             "iff the rank request reduces, explicit names kept, from_string = exact else first partial match in enum "
             "order, 'fixed' keeps the requested inducing points); promised shape of L; predictor family as "
-            "compute_conditional dispatches; uncertainty needs advi; no internal outcome outside the recorded regions. "
+            "compute_conditional dispatches; uncertainty needs advi; no internal outcome outside the recorded regions; an integer "
+            "rank given as a NumPy / JAX integer scalar resolves like the Python int (numpy_integer_rank_is_integer_rank). "
             "Tied to /repo by exhaustive function-level boundary grids and by fitting the estimators on the property's "
             "grid, with an independent rule/clean-failure oracle.",
     "note": "no_internal, rules, shape_promise and pred_matches_type are full-strength theorems for all four estimators "
             "(after the repairs of the FunctionEstimator validation / noise-shape defects and of the negative-rank hole; the "
-            "old witnesses are replayed as regression cases on every run). Nystroem column counts for fractional ranks are "
-            "an input (C10).",
+            "old witnesses are replayed as regression cases on every run; so are estimators with rank=np.int64 / np.int32 / "
+            "np.uint8 / 0-d np / jnp integer arrays, compared with the run on the same Python int - signature "
+            "C15:numpy-integer-rank, fixed defect 4604925). Nystroem column counts for fractional ranks are an input (C10).",
     "technique": "Lean 4 proof (case analysis over an exact decision model with unbounded integers) + exhaustive/sampled "
                  "differential correspondence + independent rule oracle",
 }
